@@ -28,10 +28,15 @@ Proof.
       (eapply parses_bind; [pue|]); cbv beta iota; (eapply parses_bind; [pue|]); cbv beta; apply IH; try assumption; lia.
 Qed.
 
-Lemma parses_mod_list l : Forall (fun m => u32v (mod_val m)) l -> Parses read_mod_list (enc_mod_list l) l.
+Lemma parses_mod_list e l : Forall (fun m => u32v (mod_val m)) l -> Parses read_mod_list (enc_mod_list e l) l.
 Proof.
   intros Hall. unfold read_mod_list, enc_mod_list, rs. destruct l as [|m r].
-  - pcast (flag false ++ []). eapply parses_bind; [apply parses_bool|]. cbv beta. cbn [negb]. apply parses_ret.
+  - destruct e.
+    + eapply parses_bind; [apply parses_bool|]. cbv beta. cbn [negb].
+      intros rest tl. cbn [bits].
+      pose proof (parses_mods_loop [] (S (length (ue 3 ++ rest))) []) as Hp. cbn [app map concat length] in Hp.
+      apply Hp; [lia|constructor].
+    + pcast (flag false ++ []). eapply parses_bind; [apply parses_bool|]. cbv beta. cbn [negb]. apply parses_ret.
   - eapply parses_bind; [apply parses_bool|]. cbv beta. cbn [negb].
     intros rest tl. cbn [bits].
     pose proof (parses_mods_loop (m :: r) (S (length ((concat (map enc_mod (m :: r)) ++ ue 3) ++ rest))) [] ) as Hp.
@@ -39,14 +44,14 @@ Proof.
     rewrite !app_length. pose proof (concat_length_ge enc_mod (m :: r) enc_mod_length). lia.
 Qed.
 
-Lemma parses_rpl fam r : wf_rpl fam r -> Parses (ref_pic_list_mods_read fam) (enc_rpl r) r.
+Lemma parses_rpl fam em r : wf_rpl fam r -> Parses (ref_pic_list_mods_read fam) (enc_rpl em r) r.
 Proof.
   intros H. unfold ref_pic_list_mods_read, enc_rpl. destruct fam; destruct r as [|a|a b]; cbn [wf_rpl] in H; try contradiction.
-  - pcast (enc_mod_list a ++ []). eapply parses_bind; [apply parses_mod_list; exact H|]. cbv beta. apply parses_ret.
+  - pcast (enc_mod_list (fst em) a ++ []). eapply parses_bind; [apply parses_mod_list; exact H|]. cbv beta. apply parses_ret.
   - destruct H as [Ha Hb]. eapply parses_bind; [apply parses_mod_list; exact Ha|]. cbv beta.
-    pcast (enc_mod_list b ++ []). eapply parses_bind; [apply parses_mod_list; exact Hb|]. cbv beta. apply parses_ret.
+    pcast (enc_mod_list (snd em) b ++ []). eapply parses_bind; [apply parses_mod_list; exact Hb|]. cbv beta. apply parses_ret.
   - apply parses_ret.
-  - pcast (enc_mod_list a ++ []). eapply parses_bind; [apply parses_mod_list; exact H|]. cbv beta. apply parses_ret.
+  - pcast (enc_mod_list (fst em) a ++ []). eapply parses_bind; [apply parses_mod_list; exact H|]. cbv beta. apply parses_ret.
   - apply parses_ret.
 Qed.
 
@@ -388,9 +393,9 @@ Proof.
     eapply parses_bind; [apply parses_drm; exact Hwf|]. cbv beta. apply parses_ret.
 Qed.
 
-Theorem slice_header_roundtrip c hdr pp sp h ab rest tl :
+Theorem slice_header_roundtrip c hdr pp sp h ab em rest tl :
   ctx_ok c -> wf_slice c hdr pp sp h ab -> any_one (List.tl rest) = true ->
-  slice_header_read c hdr (mk_src (enc_slice_header hdr pp sp h ab ++ rest) tl)
+  slice_header_read c hdr (mk_src (enc_slice_header hdr pp sp h ab em ++ rest) tl)
   = OK ((h, pps_seq_parameter_set_id pp, pic_parameter_set_id pp), mk_src rest tl).
 Proof.
   intros [Hcs Hcp] Hwf Hmore.
@@ -427,7 +432,7 @@ Proof.
   bp (enc_nra (family (sh_slice_type h)) (sh_num_ref_idx_active h)) (sh_num_ref_idx_active h) ltac:(apply parses_nra; assumption).
   destruct (N.eqb_spec (nal_unit_type_id hdr) 20); [contradiction|]. destruct (N.eqb_spec (nal_unit_type_id hdr) 21); [contradiction|].
   cbn [orb].
-  bp (enc_rpl (ref_pic_list_modification h)) (ref_pic_list_modification h) ltac:(apply parses_rpl; exact Hrpl).
+  bp (enc_rpl em (ref_pic_list_modification h)) (ref_pic_list_modification h) ltac:(apply parses_rpl; exact Hrpl).
   bp (match sh_pred_weight_table h with Some t => enc_pwt (spec_mono sp) t | None => [] end) (sh_pred_weight_table h)
      ltac:(apply (parses_pwt_opt (sh_slice_type h) pp sp (sh_num_ref_idx_active h) (sh_pred_weight_table h) Hcnt Hpwt)).
   bp (match sh_dec_ref_pic_marking h with Some d => enc_drm d | None => [] end) (sh_dec_ref_pic_marking h)
